@@ -47,7 +47,7 @@ func apisimExec(r *Run) {
 	}
 	// a third of the C02 runs sit on the wrapper SQL driver: a header can then be stored BETWEEN two reads of one
 	// verify request (c02Concurrent)
-	if r.Prop == "C02" && r.T.Chance(1, 3, "via-sql-wrapper") {
+	if (r.Prop == "C02" || r.Prop == "C04") && r.T.Chance(1, 3, "via-sql-wrapper") {
 		a.viaSim = true
 		defer func() { sqlQueryHook = nil }()
 		w.OpenSim()
@@ -146,6 +146,10 @@ func (a *apiSim) batch() {
 		}
 		inflight(a.c02)
 	case "C04":
+		if a.viaSim && r.T.Chance(1, 3, "read-while-ingesting") {
+			a.c04Concurrent()
+			return // (this batch ingests on purpose)
+		}
 		inflight(a.c04)
 	case "C08":
 		a.c08()
@@ -423,6 +427,79 @@ func (a *apiSim) c02Concurrent() {
 
 // ----------------------------------------------------------------------------------------------
 // C04 read endpoints
+
+// c04Concurrent: "at any moment" - one read request is answered while a header (extension, fork, reorganisation,
+// orphan, whatever the history generator draws) is stored between two of the request's own read statements. The
+// oracle needs no model: the same request is asked before (store S0) and after (store S1), sequentially; the answer
+// given in between must be one of the two, byte for byte. (Sequential answers are judged against the model by c04.)
+func (a *apiSim) c04Concurrent() {
+	r, h, w := a.r, a.h, a.w
+	t := r.T
+	m := h.m
+	raw := h.NewHeader()
+	newHash := raw.Hash().String()
+	some := func(lbl string) string {
+		if t.Chance(1, 6, lbl+"-new") {
+			return newHash // unknown before, stored after
+		}
+		return m.Headers[t.Draw(len(m.Headers), lbl)].HashStr()
+	}
+	method, path := "GET", ""
+	var body []byte
+	kind := t.Draw(7, "cr-kind")
+	tipH := len(m.LongestChain()) - 1
+	switch kind {
+	case 0:
+		path = "/api/v1/chain/header/" + some("cr-hash")
+	case 1:
+		path = "/api/v1/chain/header/state/" + some("cr-hash")
+	case 2:
+		path = fmt.Sprintf("/api/v1/chain/header/byHeight?height=%d&count=%d", t.Range(0, tipH+1, "cr-from"), t.Range(1, 6, "cr-count"))
+	case 3:
+		path = "/api/v1/chain/tip"
+	case 4:
+		path = "/api/v1/chain/tip/longest"
+	case 5:
+		path = "/api/v1/chain/header/" + some("cr-x") + "/" + some("cr-y") + "/ancestor"
+	case 6:
+		method, path = "POST", "/api/v1/chain/header/commonAncestor"
+		n := t.Range(1, 4, "cr-n")
+		var hs []string
+		for i := 0; i < n; i++ {
+			hs = append(hs, some("cr-ca"))
+		}
+		body, _ = json.Marshal(hs)
+	}
+	route := []string{"header", "state", "byHeight", "tips", "tip-longest", "ancestor", "commonAncestor"}[kind]
+	ask := func() (int, []byte) { return w.HTTP(method, path, body, nil) }
+	c0, b0 := ask()
+	at := t.Range(0, 5, "cr-at") // the header is stored before the at-th read statement of the request (0-based)
+	seen := 0
+	sqlQueryHook = func(string) {
+		if seen == at {
+			sqlQueryHook = nil
+			h.Submit(raw, "during-read")
+			r.Fault("header-stored-between-two-reads")
+		}
+		seen++
+	}
+	cc, bc := ask()
+	fired := sqlQueryHook == nil
+	sqlQueryHook = nil
+	if !fired {
+		h.Submit(raw, "after-read") // the request needed fewer reads than drawn: plain sequential case
+	}
+	c1, b1 := ask()
+	r.Logf("read %s %s while a header was stored before its read %d (%v): before %d, during %d, after %d", method, path, at, fired, c0, cc, c1)
+	if !(cc == c0 && bytes.Equal(bc, b0)) && !(cc == c1 && bytes.Equal(bc, b1)) {
+		r.Fail("C04", "answer-of-no-moment", fmt.Sprintf("%s|during=%d,before=%d,after=%d", route, cc, c0, c1),
+			"%s %s answered %d %s while header %s was being stored (before the request's read %d); asked before, the service answered %d %s; asked after, %d %s: the answer in between is the one of neither store",
+			method, path, cc, truncate(string(bc), 240), short(raw.Hash()), at, c0, truncate(string(b0), 240), c1, truncate(string(b1), 240))
+	}
+	if fired && (c0 != c1 || !bytes.Equal(b0, b1)) {
+		r.Probe("concurrent-read-whose-answer-changes")
+	}
+}
 
 type hdrJSON struct {
 	Hash    string      `json:"hash"`
